@@ -15,6 +15,7 @@ import Bmc.Proofs.GenHs.NewV2Session
 import Bmc.Proofs.GenHs.Examples
 import Bmc.Proofs.EndToEnd.HandshakeC01
 import Bmc.Proofs.EndToEnd.SessionC01
+import Bmc.Proofs.EndToEnd.WholeC01
 #print axioms Bmc.Proofs.C01.keys_are_spec
 #print axioms Bmc.Proofs.C01.session_ids
 #print axioms Bmc.Proofs.C01.unsupported_refused
@@ -75,3 +76,5 @@ import Bmc.Proofs.EndToEnd.SessionC01
 #print axioms Bmc.Proofs.EndToEnd.generated_newV2Session_against_spec_bmc
 #print axioms Bmc.Proofs.EndToEnd.generated_SendCommand_answered
 #print axioms Bmc.Proofs.EndToEnd.generated_all_commands_answered
+#print axioms Bmc.Proofs.EndToEnd.keysOfSession_sessionOf
+#print axioms Bmc.Proofs.EndToEnd.generated_session_then_commands
